@@ -4,7 +4,7 @@ VARIABLE l
 TraceLog == ndJsonDeserialize(IOEnv.TRACE)
 Ev == TraceLog[l]
 TRoundTrip == /\ l <= Len(TraceLog) /\ Ev.e = "RoundTrip" /\ l' = l + 1
-              /\ (~RoundTripOK(Ev.sev, Ev.sameIds, Ev.sameKeywords, Ev.valuesSame, Ev.secondIdentical)) =>
+              /\ (~RoundTripOK(Ev.sev, Ev.sameIds, Ev.sameKeywords, Ev.valuesSame, Ev.sameHeader, Ev.secondIdentical)) =>
                     PrintT("@@CASE " \o ToJson([line |-> l, ev |-> Ev]))
 TInit == l = 1
 TNext == TRoundTrip
